@@ -76,7 +76,7 @@ func E1Tables() *an.Tables {
 			{Rule: "G", Func: "(*Buffer).ensure", Subject: "Buffer.consumers", Kind: "read", Why: "documented double-checked init of the map header: the first call precedes sharing and the header is never rewritten"},
 		},
 		CellExempt: []an.Exception{
-			{Rule: "CELL", Func: "(*Buffer).cleanup$1$1", Subject: "timer", Kind: "read", Why: "timer is written before the go statement that starts this goroutine; the next write happens only after this goroutine's own deferred reset"},
+			{Rule: "CELL", Func: "(*Buffer).cleanup$1$1", Subject: "*time.Timer", Kind: "read", Why: "timer is written before the go statement that starts this goroutine; the next write happens only after this goroutine's own deferred reset"},
 		},
 		Block: []an.BlockRow{
 			{Func: "(*consumer).Get", Op: "recv", Held: []string{"consumer.mutex"}, Why: "Get serialises readers of one consumer; C12's proviso names a blocked Get"},
